@@ -3,6 +3,7 @@
 -/
 import SuironVerif.Lemmas.Exhausted
 import SuironVerif.Lemmas.EngineRefine
+import SuironVerif.Lemmas.MachineDet
 namespace Suiron.C03
 
 /-- the first request on a fresh `not` node asks G's node exactly once; `not` succeeds with the
@@ -81,5 +82,34 @@ theorem C03_reference (fo : FloatOps) (kb : KB)
   | some σ' =>
     obtain ⟨S, hS⟩ := h2 σ' hs
     refine ⟨Or.inr (by simp), fun hn => by simp at hn, fun _ => ⟨σ', S, hS⟩⟩
+
+/-- C03 as an equivalence (the reference machine is deterministic): `not(G)` answers — with its own unchanged set —
+    IF AND ONLY IF the reference search for G ends without an answer, and answers none if and only if that search
+    shows an answer. -/
+theorem C03_iff (fo : FloatOps) (kb : KB)
+    (hkb : ∀ key rs, kb.get key = some rs → ∀ r ∈ rs, r.body.isNil = true ∨ Spec.pureG r.body = true)
+    (G : Goal) (gs : GoalList) (hp : Spec.pureG G = true) (σ : Subst) (g0 g1 : Suiron.G) (hg : Spec.GOK g0) (N : Node)
+    (hmk : mkNode fo.showF kb (.not (.cons G gs)) σ g0 = .ok (N, g1)) (f : Nat) (st : Step)
+    (hst : next fo kb (f+1) N g1 = .ok st) :
+    (st.sol = some σ ↔ ∃ c o, Spec.PSteps fo kb ⟨[.goals [G] σ], g0.counter, g0.out⟩ ⟨[], c, o⟩) ∧
+    (st.sol = none ↔ ∃ σ' S c o, Spec.PSteps fo kb ⟨[.goals [G] σ], g0.counter, g0.out⟩ ⟨.goals [] σ' :: S, c, o⟩) := by
+  obtain ⟨h0, h1, h2⟩ := C03_reference fo kb hkb G gs hp σ g0 g1 hg N hmk f st hst
+  constructor
+  · constructor
+    · intro hs; exact ⟨_, _, h1 hs⟩
+    · rintro ⟨c, o, hrun⟩
+      rcases h0 with h0 | h0
+      · exact h0
+      · obtain ⟨σ', S, hrun'⟩ := h2 h0
+        have := hrun.det hrun' (Or.inl rfl) (Or.inr ⟨_, _, rfl⟩)
+        cases this
+  · constructor
+    · intro hs; obtain ⟨σ', S, hrun⟩ := h2 hs; exact ⟨σ', S, _, _, hrun⟩
+    · rintro ⟨σ', S, c, o, hrun⟩
+      rcases h0 with h0 | h0
+      · have hrun' := h1 h0
+        have := hrun.det hrun' (Or.inr ⟨_, _, rfl⟩) (Or.inl rfl)
+        cases this
+      · exact h0
 
 end Suiron.C03
